@@ -42,9 +42,6 @@ func thoroughExtras(c *Ctx, vdir string) map[string]any {
 	dir := filepath.Join(vdir, "mutants", c.Property)
 	files, _ := filepath.Glob(filepath.Join(dir, "*.diff"))
 	sort.Strings(files)
-	if len(files) == 0 {
-		return out
-	}
 	baseline := map[string]bool{}
 	for _, o := range c.Obligations {
 		if o.Verdict == "violated" || o.Verdict == "undecided" || o.Verdict == "known-finding" {
@@ -75,6 +72,45 @@ func thoroughExtras(c *Ctx, vdir string) map[string]any {
 		default:
 			skipped++
 		}
+	}
+	// (c) silence sweep: behaviour-preserving edits (benign/*.diff) must not make this property's rules fire
+	bfiles, _ := filepath.Glob(filepath.Join(vdir, "benign", "*.diff"))
+	sort.Strings(bfiles)
+	bres := make([]mutantResult, len(bfiles))
+	for i, f := range bfiles {
+		wg.Add(1)
+		go func(i int, f string) {
+			defer wg.Done()
+			sem <- struct{}{}
+			defer func() { <-sem }()
+			r := runMutant(exe, vdir, c.RepoDir, c.Property, f, baseline)
+			r.Expect = "silent"
+			switch {
+			case r.Status == "skipped":
+			case len(r.FiredNew) == 0:
+				r.Status = "silent"
+			default:
+				r.Status = "false_alarm"
+			}
+			bres[i] = r
+		}(i, f)
+	}
+	wg.Wait()
+	nSilent, nAlarm := 0, 0
+	for _, r := range bres {
+		switch r.Status {
+		case "silent":
+			nSilent++
+		case "false_alarm":
+			nAlarm++
+			fmt.Printf("  FALSE_ALARM on behaviour-preserving edit %s: %s\n", filepath.Base(r.File), strings.Join(r.FiredNew, ", "))
+		}
+	}
+	if len(bres) > 0 {
+		c.Stats["benign_silent"] = nSilent
+		c.Stats["benign_false_alarm"] = nAlarm
+		out["benign"] = bres
+		fmt.Printf("silence sweep %s: %d behaviour-preserving edits, %d silent, %d false alarms (does not affect the verdict)\n", c.Property, len(bres), nSilent, nAlarm)
 	}
 	c.Stats["mutants_caught"] = caught
 	c.Stats["mutants_sensitivity_gap"] = gaps
